@@ -171,3 +171,26 @@ Definition chk_prog (c : prog_case) : bool :=
   && chk_steps (fstate_run cfg (compiles_of (pc_compiles c))) (sasl_of (pc_sasl c))
        (mk_world fstate (pc_stores c) (repeat (conn_init cfg) (pc_conns c)))
        (pc_events c) (pc_expect c).
+
+(* diagnosis of a disagreeing case: index of the first step where model and
+   implementation differ, the model's answer and the model's stores there
+   (None: the greeting or the lengths differ) *)
+Fixpoint diag_steps (frun : fstate -> cmd -> resp * fstate)
+         (sasl : bytes -> option bytes -> list bytes -> auth_outcome)
+         (w : world fstate) (i : nat) (evs : list (nat * bytes * list bytes))
+         (exp : list (option resp * list (user * fstate)))
+  : option (nat * option resp * list (user * fstate)) :=
+  match evs, exp with
+  | (k, buf, conts) :: evs', (o, obs) :: exp' =>
+    let '(o', w') := step sasl fstate frun fs_init w (k, input_of_bytes buf conts) in
+    if option_eqb resp_eqb o' o && stores_match (w_stores fstate w') obs
+    then diag_steps frun sasl w' (S i) evs' exp'
+    else Some (i, o', map (fun p => (fst p, get_store fstate fs_init (w_stores fstate w') (fst p))) obs)
+  | _, _ => None
+  end.
+
+Definition diag_prog (c : prog_case) :=
+  let cfg := pc_cfg c in
+  diag_steps (fstate_run cfg (compiles_of (pc_compiles c))) (sasl_of (pc_sasl c))
+    (mk_world fstate (pc_stores c) (repeat (conn_init cfg) (pc_conns c))) 0
+    (pc_events c) (pc_expect c).
